@@ -177,11 +177,41 @@ class OptV:
         self.val = val
 
 
+class SymKey:
+    """A symbolic (z3 term) key of a DictV / SetV.  Hashable by identity.  INVARIANT kept by the store operations: the keys of
+    one dict are pairwise different under the current path condition (every store of a symbolic key splits the path on
+    'equals an existing key' / 'new key'), so len() and iteration are exact."""
+    __slots__ = ("term",)
+
+    def __init__(self, term):
+        self.term = term
+
+    def __repr__(self):
+        return f"SymKey({self.term})"
+
+
+def key_value(k):
+    return k.term if isinstance(k, SymKey) else k
+
+
 class DictV:
-    """Dict with concrete (hashable, Python-level) keys in insertion order."""
+    """Dict in insertion order; keys are concrete hashable Python values or SymKey wrappers of z3 terms."""
 
     def __init__(self, d=None):
         self.d = dict(d or {})
+
+    def symbolic(self):
+        return any(isinstance(k, SymKey) for k in self.d)
+
+    def keys(self):
+        return [key_value(k) for k in self.d]
+
+    def items(self):
+        return [(key_value(k), v) for k, v in self.d.items()]
+
+
+class SetV(DictV):
+    """Set = DictV whose values are True."""
 
 
 class FuncRef:
